@@ -19,6 +19,7 @@ import (
 	"math"
 	"math/big"
 	"reflect"
+	"strconv"
 	"time"
 
 	"github.com/google/uuid"
@@ -320,7 +321,22 @@ func (dec *Decoder) LastReferenceIndex() int {
 
 // ReadReference to p.
 func (dec *Decoder) ReadReference(p interface{}) {
-	o := dec.refer.Read(dec.ReadInt())
+	i := dec.ReadInt()
+	if i < 0 || i >= len(dec.refer.ref) {
+		// the index comes from the wire: it must name a value read before (none at all in simple mode)
+		if dec.Error == nil {
+			dec.Error = DecodeError("hprose/io: reference index " + strconv.Itoa(i) + " out of range")
+		}
+		return
+	}
+	o := dec.refer.Read(i)
+	if o == nil {
+		// a slot registered without a value (the result list of a client call)
+		if dec.Error == nil {
+			dec.Error = DecodeError("hprose/io: reference " + strconv.Itoa(i) + " does not name a value")
+		}
+		return
+	}
 	src := reflect.TypeOf(o)
 	dest := reflect.TypeOf(p).Elem()
 	if conv := GetConverter(src, dest); conv != nil {
